@@ -130,6 +130,9 @@ func cmdVerify(args []string) {
 		}
 		if *verbose || !ok {
 			fmt.Printf("%-14s %-70s %6.2fs %s  [%s] %s\n", ob.Status, ob.Name, ob.TimeS, ob.Solver, ob.Pos, trunc(ob.Clause, 80))
+			if !ok || ob.TimeS > 3 {
+				fmt.Printf("      tried: %v\n", ob.Tried)
+			}
 			if !ok && ob.Model != nil && *verbose {
 				keys := sortedKeys(ob.Model)
 				for _, k := range keys {
